@@ -61,8 +61,8 @@ def build_dataset(grid):
             coords[nm(d)] = (nm(d), np.arange(L) * 2.0 + base)
     for d, L in grid.get("extra", []):
         coords[nm(d)] = (nm(d), np.arange(L) * 1.0)
-    if grid.get("facedim"):
-        d, L = grid["facedim"]
+    if grid.get("faces"):
+        d, L = grid["faces"]["dim"], grid["faces"]["n"]
         coords[nm(d)] = (nm(d), np.arange(L))
     return xr.Dataset(coords=coords)
 
@@ -80,6 +80,11 @@ def grid_kwargs(grid):
     ds_ = ctor.get("default_shifts")
     if ds_ and ds_["k"] == "m":
         kw["default_shifts"] = {nm(a): {f: t for f, t in pairs} for a, pairs in ds_["v"]}
+    if grid.get("faces"):
+        from .faces import fc_dict
+
+        fcs = grid["faces"]
+        kw["face_connections"] = fc_dict(fcs["table"], fcs["n"], nm(fcs["dim"]), nm, order=fcs.get("order"))
     return kw
 
 
